@@ -35,7 +35,7 @@ def run(ctx, env):
     from . import consume as _consume
     _consume.rule(ctx, prog, an, "R9.6", lambda b: b.path.startswith(("variable_versions::v9::", "variable_versions::data_number::")), floor=12, strict_len=True)
     ctx.rule("R9.8", "the records a decoder reports are made by that decode alone: every element added to the reported collection derives from the input slice, and the collection itself is created by the call - not the drained / taken content of storage kept in the parser object (a reusable buffer that a failed decode leaves half-filled would surface in a later packet): re-export would emit bytes the packet never carried (shared with C02 R2.10)")
-    _consume.foreign_rule(ctx, prog, an, "R9.8", lambda b: b.path.startswith(("variable_versions::v9::", "variable_versions::data_number::")), floor=1)
+    _consume.foreign_rule(ctx, prog, an, "R9.8", lambda b: b.path.startswith(("variable_versions::v9::", "variable_versions::data_number::")), floor=0)
     ctx.rule("R9.5", "V9 templates: every parsed template reaches the cache by an overwriting write on every path, and the template reported in the result is the parsed one; no test of anything but the stored records can keep them out of the cache once they parsed (shared with C06 R6.8)")
     ctx.rule("R9.4", "if a field-decode failure can be swallowed (decoder still returns Ok), the swallowed unit is a whole record: the failure is handled at record level and the returned remainder (it becomes padding) only advances there")
     from . import records as _records
